@@ -123,6 +123,12 @@ func (c05) Run(c *Ctx, i int) CaseResult {
 			}
 		}
 	}
+	// L2: the executor's data path against the sequential executor model (whose result every schedule must reach)
+	xf, xnote := ExecCorr(c, in)
+	if len(xf) > 0 {
+		res.Fails = xf
+		return res
+	}
 	ncalls := ref.Fed.TotalCalls()
 	res.Key = fmt.Sprint(in.Spec.SDLs, in.Query, in.StoreSeed, in.ListLen, in.Faults)
 	res.Nontrivial = ncalls >= 3
@@ -178,7 +184,7 @@ func (c05) Run(c *Ctx, i int) CaseResult {
 			return res
 		}
 	}
-	res.Counters = map[string]int{"service_calls": ncalls, "schedules": nsched, "releases": released, "traces_accepted_by_machine": traced}
+	res.Counters = map[string]int{"service_calls": ncalls, "schedules": nsched, "releases": released, "traces_accepted_by_machine": traced, "exec_model_" + xnote: 1}
 	res.Features = append(FeatList(insFeat), fmt.Sprintf("faults-%d", len(in.Faults)))
 	if i%23 == 0 {
 		res.Sample = map[string]interface{}{"query": in.Query, "faults": in.Faults, "calls": ncalls, "schedules": nsched, "releases": released}
